@@ -71,6 +71,7 @@ type Config struct {
 	TimePassP  float64 // probability of letting virtual time pass although a task is runnable
 	TraceLimit int     // keep the last N trace records (0 = 256)
 	Verbose    bool
+	EchoPrintf bool // verbose trace also shows kevo's own Printf debugging
 }
 
 type Task struct {
@@ -122,15 +123,15 @@ type Sim struct {
 	start time.Time
 	nexti int
 
-	dying    bool
-	stop     bool
-	mainDone bool
-	out      Outcome
-	hash     uint64
-	trace    []traceRec
-	tpos     int
-	pctAt    []int64
-	notes    []string
+	dying     bool
+	stop      bool
+	mainDone  bool
+	out       Outcome
+	hash      uint64
+	trace     []traceRec
+	tpos      int
+	pctAt     []int64
+	notes     []string
 	last      *Task
 	lastClass int
 	started   bool
@@ -186,6 +187,14 @@ func Float() float64 {
 	return S.Float()
 }
 
+// Uint64 draws 64 bits from the active simulation's choice stream.
+func Uint64() uint64 {
+	if S == nil {
+		return 0
+	}
+	return S.next()
+}
+
 func (s *Sim) hashIn(a, b, c uint64) {
 	h := s.hash
 	h = mix(h ^ a*0x9e3779b97f4a7c15)
@@ -215,6 +224,23 @@ func Note(format string, args ...any) {
 	}
 	s.addTrace(traceRec{step: s.step, task: tid, class: -1, vt: s.vnow(), note: msg})
 }
+
+// Printf/Println replace kevo's unconditional debugging output to stdout
+// (pkg/replication prints several lines per replicated entry). The text only
+// reaches the verbose trace; it never feeds the trace hash.
+func Printf(format string, args ...any) {
+	s := S
+	if s == nil || !s.cfg.Verbose || !s.cfg.EchoPrintf {
+		return
+	}
+	tid := -1
+	if s.curp.Load() != nil {
+		tid = s.curp.Load().ID
+	}
+	s.addTrace(traceRec{step: s.step, task: tid, class: -1, vt: s.vnow(), note: "| " + strings.TrimRight(fmt.Sprintf(format, args...), "\n")})
+}
+
+func Println(args ...any) { Printf("%s", fmt.Sprintln(args...)) }
 
 // Hash mixes a value into the trace hash only.
 func Hash(v uint64) {
